@@ -714,15 +714,15 @@ class RequestHandler:
         morsel = new_cookie[name]
         if domain:
             morsel["domain"] = domain
-        if expires_days is not None and not expires:
+        if expires_days is not None and expires is None:
             expires = datetime.datetime.now(datetime.timezone.utc) + datetime.timedelta(
                 days=expires_days
             )
-        if expires:
+        if expires is not None:
             morsel["expires"] = httputil.format_timestamp(expires)
         if path:
             morsel["path"] = path
-        if max_age:
+        if max_age is not None:
             # Note change from _ to -.
             morsel["max-age"] = str(max_age)
         if httponly:
